@@ -13,6 +13,8 @@ from ..anf import R
 from .. import anf
 from .common import formula_ob, struct_ob, guard, last_return, U
 from ..report import AnalysisError
+from ..term import Resolver, pmatch, find_all, abstract, anf_of
+from ..seq import Layouts, UNKNOWN, show
 
 REL = "inference/priors.py"
 POST = "inference/posterior.py"
@@ -205,7 +207,7 @@ def run(prog, tier):
                          "JointPrior.__call__ must be the sum over all components of c(theta)", REL, fn.lineno,
                          slots={"return": U(ret.value) if ret else None}))
     init = jp.methods["__init__"]
-    obs.append(_joint_bounds(jp, init))
+    obs.append(_joint_bounds(jp, init, prog))
     obs.append(_combine_coverage(prog, jp, init))
 
     # ---------------- Posterior
@@ -391,32 +393,34 @@ def _scatter(c, fn, mname):
                      REL, fn.lineno)
 
 
-def _joint_bounds(jp, init):
+def _joint_bounds(jp, init, prog=None):
     """bounds paired with variables through one zip over the same component order, sorted on the index."""
-    src = {}
-    for st in ast.walk(init):
-        if isinstance(st, ast.Assign) and len(st.targets) == 1:
-            src[U(st.targets[0])] = st.value
-    ok, why = False, ""
-    try:
-        ab, ai, both, sb = src["all_bounds"], src["all_inds"], src["both"], src["self.bounds"]
-        c1 = U(ab) == "chain(*[c.bounds for c in self.components])"
-        c2 = U(ai) == "chain(*[c.variables for c in self.components])"
-        c3 = (isinstance(both, ast.Call) and U(both.func) == "sorted"
-              and "zip(all_bounds, all_inds)" in U(both.args[0])
-              and any(k.arg == "key" and U(k.value) == "lambda x: x[1]" for k in both.keywords)
-              and not any(k.arg == "reverse" for k in both.keywords))
-        lc = both.args[0]
-        c3 = c3 and isinstance(lc, ast.ListComp) and U(lc.elt) == "(b, i)" \
-            and U(lc.generators[0].target) == "(b, i)"
-        c4 = U(sb) == "[v[0] for v in both]"
-        ok = c1 and c2 and c3 and c4
-        why = f"{c1=} {c2=} {c3=} {c4=}"
-    except KeyError as e:
-        why = f"missing definition {e}"
-    return struct_ob("routing", f"{jp.module.name}.JointPrior.__init__[bounds]", ok,
+    L = Layouts(init, prog, jp.module, jp)
+    flat_b = (("flat", ("iter", "self.components"), (("splice", "va0.bounds"),)),)
+    flat_i = (("flat", ("iter", "self.components"), (("splice", "va0.variables"),)),)
+    nb = [k for k, v in L.state.items() if v == flat_b]
+    ni = [k for k, v in L.state.items() if v == flat_i]
+    why = []
+    sb = [st for st in ast.walk(init) if isinstance(st, ast.Assign) and U(st.targets[0]) == "self.bounds"]
+    if len(sb) != 1:
+        why.append(f"{len(sb)} assignments of self.bounds")
+    else:
+        t = L.rz.term(sb[0].value, sb[0], keep=tuple(nb + ni))
+        ok = False
+        for b_ in nb or ["?"]:
+            for i_ in ni or ["?"]:
+                for pt in (f"[_v[0] for _v in sorted([(_b, _i) for _b, _i in zip({b_}, {i_})], key=lambda z: z[1])]",
+                           f"[_v[0] for _v in sorted(zip({b_}, {i_}), key=lambda z: z[1])]",
+                           f"[_b for _b, _i in sorted(zip({b_}, {i_}), key=lambda z: z[1])]",
+                           f"[_v[1] for _v in sorted([(_i, _b) for _b, _i in zip({b_}, {i_})], key=lambda z: z[0])]",
+                           f"[_v[1] for _v in sorted(zip({i_}, {b_}), key=lambda z: z[0])]"):
+                    if b_ != "?" and i_ != "?" and pmatch(t, pt) is not None:
+                        ok = True
+        if not ok:
+            why.append(f"self.bounds is `{U(t)[:220]}`; bound lists {nb}, index lists {ni}")
+    return struct_ob("routing", f"{jp.module.name}.JointPrior.__init__[bounds]", not why,
                      "JointPrior.bounds must pair each component bound with its variable index (one zip over the "
-                     "same component order) and sort on the index: " + why, REL, init.lineno)
+                     "same component order) and sort on the index: " + "; ".join(why), REL, init.lineno)
 
 
 def _combine_coverage(prog, jp, init):
